@@ -48,12 +48,20 @@ Fixpoint all2 {A B} (f : A -> B -> bool) (l1 : list A) (l2 : list B) : bool :=
 Definition check_case (c : case) : bool := all2 out_agrees (model_outs c) (map snd (c_hist c)).
 
 (* ---- executable property along the model run ---- *)
+(* the store invariant of c13_reachable_invariant *)
 Definition alert_ok (now : Z) (k : list (string * string)) (a : alert) : bool :=
-  beq (a_labels a) k && (a_starts a <=? a_ends a) && negb (a_ends a =? 0) && negb (a_starts a =? 0).
+  beq (a_labels a) k && (a_starts a <=? a_ends a) && negb (a_ends a =? 0) && negb (a_starts a =? 0) && (a_updated a <=? now).
+Definition inv_ok (now : Z) (s : store) : bool := forallb (fun '(k, a) => alert_ok now k a) (map_to_list s).
 
-Definition is_api (o : op) : bool := match o with OPut _ => false | _ => true end.
+(* of a reversed list of alerts: the last alert of each label set *)
+Fixpoint last_of_each (l : list alert) (seen : list (list (string * string))) : list alert :=
+  match l with
+  | [] => []
+  | a :: r => if bool_decide (a_labels a ∈ seen) then last_of_each r seen else a :: last_of_each r (a_labels a :: seen)
+  end.
 
-Definition step_ok (E : env) (s : store) (now : Z) (o : op) : bool :=
+(* [pure]: no direct provider Put has happened so far (the state is reachable through the API alone) *)
+Definition step_ok (E : env) (pure : bool) (s : store) (now : Z) (o : op) : bool :=
   let '(s', r) := step E s now o in
   (* stored alerts only disappear in a GC step, and then only resolved ones; GC keeps every unresolved alert unchanged *)
   forallb (fun '(k, a) =>
@@ -61,31 +69,57 @@ Definition step_ok (E : env) (s : store) (now : Z) (o : op) : bool :=
     | Some a' => match o with OGC | OGet | ODump => beq a a' | _ => true end
     | None => match o with OGC => negb (a_ends a =? 0) && (a_ends a <=? now) | _ => false end
     end) (map_to_list s) &&
+  (negb pure || match o with OPut _ => true | _ => inv_ok now s' end) &&
   match o, r with
   | OPost batch, RPost c sent =>
       (* stored set = stored set after POSTing only the valid alerts; response class reflects the invalid ones *)
       let vb := List.filter (valid_p (e_vname E) (e_vvalue E) now (e_rt E)) batch in
       beq (map_to_list s') (map_to_list (fst (post (e_vname E) (e_vvalue E) now (e_rt E) s vb))) &&
       (c =? (if (length vb =? length batch)%nat then 200 else 400)) &&
-      (* every valid alert of the batch is stored under its (cleaned) label set, updated now *)
+      (* every valid alert of the batch is stored under its (cleaned) label set *)
       forallb (fun p => match s' !! a_labels (prep now (e_rt E) p) with Some a => true | None => false end) vb &&
+      (* label sets without a valid alert in the batch are untouched *)
+      forallb (fun '(k, a) => bool_decide (k ∈ map (fun p => a_labels (prep now (e_rt E) p)) vb) || beq (s' !! k) (Some a)) (map_to_list s) &&
       (* defaults *)
       forallb (fun p =>
         let a := prep now (e_rt E) p in
         (if p_starts p =? 0 then (if p_ends p =? 0 then a_starts a =? now else a_starts a =? p_ends p) else a_starts a =? p_starts p) &&
-        (if p_ends p =? 0 then (a_ends a =? now + e_rt E) && a_timeout a else (a_ends a =? p_ends p) && negb (a_timeout a))) batch
+        (if p_ends p =? 0 then (a_ends a =? now + e_rt E) && a_timeout a else (a_ends a =? p_ends p) && negb (a_timeout a))) batch &&
+      (* merged times of the last valid alert of each label set (API-reachable states) *)
+      (negb pure ||
+       forallb (fun a =>
+         match s' !! a_labels a with
+         | None => false
+         | Some r =>
+             let sole := (length (List.filter (fun b => beq (a_labels b) (a_labels a)) (map (prep now (e_rt E)) vb)) =? 1)%nat in
+             (a_updated r =? now) && beq (a_annots r) (a_annots a) && (a_starts r <=? a_starts a) &&
+             (if a_timeout a then (now + e_rt E <=? a_ends r) && a_timeout r
+              else if a_ends a <=? now then resolved_at now r && (a_ends a <=? a_ends r) else true) &&
+             (* the only alert of its label set in the batch: end, earliest-start and re-fire rules against the
+                alert stored before the POST *)
+             (negb sole ||
+              match s !! a_labels a with
+              | Some old =>
+                  ((a_ends r =? a_ends a) || (a_ends r =? a_ends old)) &&
+                  (if a_starts a <? a_ends old then a_starts r =? Z.min (a_starts old) (a_starts a) else beq r a)
+              | None => beq r a
+              end)
+         end) (last_of_each (rev (map (prep now (e_rt E)) vb)) []))
   | OGet, RGet l =>
       (* exactly the stored alerts whose end has not passed *)
       forallb (fun '(k, a) => Bool.eqb (bool_decide (to_g (e_route E) (e_status E) a ∈ l)) ((a_ends a =? 0) || (now <=? a_ends a))) (map_to_list s) &&
       (length l <=? length (map_to_list s))%nat
   | OGC, RGC d =>
-      forallb (fun a => negb (a_ends a =? 0) && (a_ends a <=? now) && bool_decide (s !! a_labels a = Some a)) d
+      forallb (fun a => negb (a_ends a =? 0) && (a_ends a <=? now) && bool_decide (s !! a_labels a = Some a)) d &&
+      forallb (fun '(k, a) => bool_decide (a ∈ d) || (now <? a_ends a) || (a_ends a =? 0)) (map_to_list s)
   | _, _ => true
   end.
 
-Fixpoint hist_ok (E : env) (s : store) (h : list (Z * op)) : bool :=
+Fixpoint hist_ok (E : env) (pure : bool) (s : store) (h : list (Z * op)) : bool :=
   match h with
   | [] => true
-  | (now, o) :: r => step_ok E s now o && hist_ok E (fst (step E s now o)) r
+  | (now, o) :: r =>
+      step_ok E pure s now o &&
+      hist_ok E (pure && match o with OPut _ => false | _ => true end) (fst (step E s now o)) r
   end.
-Definition prop_case (c : case) : bool := hist_ok (env_of c) ∅ (map fst (c_hist c)).
+Definition prop_case (c : case) : bool := hist_ok (env_of c) true ∅ (map fst (c_hist c)).
